@@ -35,6 +35,11 @@ package cors
 // The handler. Ghost response state (respHdr/respSet/varySet/nextCalls/sentStatus) is that of this activation.
 //@ func New$1
 //@   requires fresh-activation: nextCalls == 0 && sentStatus == 0 && forallS(k, !respSet[k]) && forallS(k, !varySet[k])
+// What New (zz_contracts_setup_verif.go) establishes about the captured lists: the same expressions are New's
+// postconditions wildcard-entries-shaped / credentials-with-all-origins-panics (the engine does
+// not check a closure's precondition where the closure is made: the link is the shared macro).
+//@   requires wildcard-entries-shaped: wildShaped()
+//@   requires credentials-exclude-all-origins: !(cfg.AllowCredentials && allowAllOrigins)
 //@   loop 1
 //@     invariant not-listed-so-far: forall(k, 0, rangeindex + 1, allowOrigins[k] != originHeader)
 //@   loop 2
@@ -43,6 +48,9 @@ package cors
 //@   atcall setSimpleHeaders: permitted-is-allowed: allowAllOrigins ==> allowOrigin == "*"
 //@   atcall setSimpleHeaders: permitted-origin-not-rejected: !allowAllOrigins && permitted(originLc(c)) ==> allowOrigin == originLc(c)
 //@   ensures acao-only-permitted: respSet[ACAO] ==> (respHdr[ACAO] == "*" && allowAllOrigins) || (respHdr[ACAO] == originLc(c) && permitted(originLc(c)))
+//@   ensures acao-by-wildcard-is-scheme-and-dot-suffix: respSet[ACAO] && !allowAllOrigins && !exists(i, 0, len(allowOrigins), allowOrigins[i] == originLc(c)) && !(cfg.AllowOriginsFunc != nil && allowFn(cfg.AllowOriginsFunc, originLc(c))) ==>
+//@ ..   exists(i, 0, len(allowSOrigins), sdShape(allowSOrigins[i].prefix, allowSOrigins[i].suffix) && len(originLc(c)) >= len(allowSOrigins[i].prefix) + len(allowSOrigins[i].suffix) && originLc(c)[:len(allowSOrigins[i].prefix)] == allowSOrigins[i].prefix && originLc(c)[len(originLc(c))-len(allowSOrigins[i].suffix)] == '.' && originLc(c)[len(originLc(c))-len(allowSOrigins[i].suffix):] == allowSOrigins[i].suffix)
+//@   ensures star-only-without-credentials: respSet[ACAO] && respHdr[ACAO] == "*" && originLc(c) != "*" ==> !cfg.AllowCredentials
 //@   ensures credentials-never-with-star: respSet[ACAC] ==> respSet[ACAO] && respHdr[ACAO] != "*" && respHdr[ACAO] != ""
 //@   ensures no-origin-no-acao: originLc(c) == "" ==> !respSet[ACAO]
 //@   ensures vary-origin: !bypassed() && (!allowAllOrigins || (originLc(c) != "" && reqMethod(c, epoch) == "OPTIONS")) ==> varySet["Origin"]
